@@ -373,6 +373,9 @@ class TestCaseExecutor(AbstractTestCaseExecutor):
         self._executed_test_cases += 1
         stat.track_output_variable(RuntimeVariable.Executed, self._executed_test_cases)
         self._before_remote_test_case_execution(test_case)
+        # Remembered (and reinstated below) by this thread rather than by the execution
+        # thread, so that it also happens when that thread is abandoned after a timeout.
+        logging_disable_level = logging.root.manager.disable
 
         with ter.ExecutionRecorder(test_case):
             output_suppression_context = OutputSuppressionContext()
@@ -412,6 +415,9 @@ class TestCaseExecutor(AbstractTestCaseExecutor):
                     # allows the EA to continue with the search process.
                     _LOGGER.error("Bug in Pynguin!")
                     result = ExecutionResult(timeout=True)
+            # The SUT may have called ``logging.disable``; Pynguin's own logging must not
+            # stay switched off (or on) because of that.
+            logging.disable(logging_disable_level)
             self._after_remote_test_case_execution(test_case, result)
             self._subject_properties.validate_execution_trace(result.execution_trace)
             return result
